@@ -35,6 +35,7 @@ import (
 
 type aState struct {
 	c        *Ctx
+	key      string
 	mem      map[string]sv
 	lists    map[string][]sv
 	maps     map[string]map[string]sv // map value id → key rendering → value
@@ -47,15 +48,42 @@ var aStates = map[*Ctx]map[string]*aState{}
 
 // aInit evaluates the package initialiser of a module package (straight-line code: every call is
 // opaque except the library models) and returns the values of its package-level variables.
-func (c *Ctx) aInit(pkg string) *aState {
+func (c *Ctx) aInit(pkg string) *aState { return c.aInitFrom(pkg, nil) }
+
+// aInitFrom: the state after the initialisers of pkg, evaluated on top of the state base (the
+// state after the initialisers of packages that pkg uses: functions of pkg that are evaluated
+// later then see the tables and objects of both).
+func (c *Ctx) aInitFrom(pkg string, base *aState) *aState {
 	if aStates[c] == nil {
 		aStates[c] = map[string]*aState{}
 	}
-	if st := aStates[c][pkg]; st != nil {
+	key := pkg
+	if base != nil {
+		key = base.key + "+" + pkg
+	}
+	if st := aStates[c][key]; st != nil {
 		return st
 	}
-	st := &aState{c: c, mem: map[string]sv{}, lists: map[string][]sv{}, maps: map[string]map[string]sv{}, objs: map[string]any{}}
-	aStates[c][pkg] = st
+	st := &aState{c: c, key: key, mem: map[string]sv{}, lists: map[string][]sv{}, maps: map[string]map[string]sv{}, objs: map[string]any{}}
+	if base != nil {
+		for k, v := range base.mem {
+			st.mem[k] = v
+		}
+		for k, l := range base.lists {
+			st.lists[k] = append([]sv{}, l...)
+		}
+		for k, m := range base.maps {
+			st.maps[k] = map[string]sv{}
+			for kk, v := range m {
+				st.maps[k][kk] = v
+			}
+		}
+		for k, o := range base.objs {
+			st.objs[k] = o
+		}
+		st.nalloc = base.nalloc
+	}
+	aStates[c][key] = st
 	fn := c.spkg(pkg).Func("init")
 	if fn == nil || len(fn.Blocks) == 0 {
 		return st
@@ -75,7 +103,7 @@ func (c *Ctx) aInit(pkg string) *aState {
 	}
 	ev.steps = -100000
 	ret := ev.runFunc(fn, nil)
-	st.complete = ret != nil || ev.why == ""
+	st.complete = (ret != nil || ev.why == "") && (base == nil || base.complete)
 	for k, v := range ev.mem {
 		if strings.HasPrefix(k, "global:") || strings.HasPrefix(k, "cell") {
 			st.mem[k] = v
@@ -254,6 +282,32 @@ func (st *aState) libCall(ev *ssaEval, call ssa.CallInstruction, args []sv) (sv,
 		return sv{}, false
 	}
 	name := callName(call)
+	if name == "" && !call.Common().IsInvoke() && ev.fr != nil {
+		// a call of a memoising function value (sync.OnceValue and relatives): the first call
+		// evaluates the function, every call yields what the first one yielded
+		if f := ev.val(ev.fr, call.Common().Value); f.k == svSym && f.fn != nil && strings.HasPrefix(f.s, "once:") {
+			key := f.s + ".#result"
+			if r, ok := ev.mem[key]; ok {
+				return r, true
+			}
+			fr := ev.fr
+			res := ev.aCallFn(f, args)
+			ev.fr = fr
+			if ev.why != "" || len(res) != f.fn.Signature.Results().Len() {
+				return sv{}, false
+			}
+			r := sv{}
+			switch len(res) {
+			case 0:
+			case 1:
+				r = res[0]
+			default:
+				r = sv{k: svTuple, tup: res}
+			}
+			ev.mem[key] = r
+			return r, true
+		}
+	}
 	str := func(i int) (string, bool) {
 		if i < len(args) {
 			return aByteString(ev, args[i])
@@ -399,6 +453,13 @@ func (st *aState) libCall(ev *ssaEval, call ssa.CallInstruction, args []sv) (sv,
 			if s, ok := str(1); ok {
 				return aStrV(r.Replace(s)), true
 			}
+		}
+	case "sync.OnceValue", "sync.OnceValues", "sync.OnceFunc":
+		// the memoising wrapper of a known function: a function value of its own identity whose
+		// result is fixed by its first call (see above)
+		if len(args) == 1 && args[0].fn != nil {
+			ev.nalloc++
+			return sv{k: svSym, s: fmt.Sprintf("once:%d:%s", ev.nalloc, args[0].s), fn: args[0].fn, fv: args[0].fv}, true
 		}
 	case "regexp.MustCompile":
 		if p, ok := str(0); ok && args[0].k == svString {
@@ -1141,6 +1202,238 @@ func (c *Ctx) tmplFuncSSA(name string) *ssa.Function {
 	return nil
 }
 
+// tmplFuncValue: the function value that the template's FuncMap holds under name once the
+// package is initialised (st: a state that includes the initialisers of type1) — a function literal, a named function, a method value bound to a
+// package-level object (r.Replace of a strings.Replacer), a closure returned by a constructor —
+// taken from the evaluated package initialiser; the syntactic resolution is the fallback.
+func (c *Ctx) tmplFuncValue(st *aState, name string) (sv, bool) {
+	t := c.fontTemplate()
+	key := aStrV(name).String()
+	var ids []string
+	for id, m := range st.maps {
+		if _, ok := m[key]; !ok {
+			continue
+		}
+		all := true
+		for _, f := range t.funcs {
+			if _, ok := m[aStrV(f).String()]; !ok {
+				all = false
+			}
+		}
+		if all {
+			ids = append(ids, id)
+		}
+	}
+	if len(ids) == 1 {
+		if v := st.maps[ids[0]][key]; v.fn != nil && len(v.fn.Blocks) > 0 {
+			return v, true
+		}
+	}
+	if f := c.tmplFuncSSA(name); f != nil && len(f.Blocks) > 0 {
+		return sv{k: svSym, s: "func:" + f.String(), fn: f}, true
+	}
+	return sv{}, false
+}
+
+// tmplFieldText: what a string field of the template data can hold, decided from every store
+// into that field in the module (the data is assembled by the module: the struct type is
+// unexported).  The field is *closed* when each stored value is — through phis and the results of
+// module functions — a string constant or the library's rendering of a time with a constant
+// layout ((time.Time).Format: the literal text of the layout, digits, a sign, and month, day and
+// zone names — the same trust under which `.Date.Format "layout"` inside the template is not
+// a string use at all).  For a closed field, literal is the concatenation of all constant text
+// that can appear in it; a field that is not closed can hold any string.
+func (c *Ctx) tmplFieldText(field string) (closed bool, literal, how string) {
+	fiT := c.typeObj("type1", "fontInfo")
+	obj, _, _ := types.LookupFieldOrMethod(fiT.Type(), true, fiT.Pkg(), field)
+	fv, ok := obj.(*types.Var)
+	if !ok || !fv.IsField() {
+		return false, "", ""
+	}
+	closed = true
+	var lits, hows []string
+	seen := map[ssa.Value]bool{}
+	var src func(v ssa.Value, depth int)
+	src = func(v ssa.Value, depth int) {
+		if seen[v] || !closed {
+			return
+		}
+		seen[v] = true
+		if k, ok := constString(v); ok {
+			lits = append(lits, k)
+			hows = append(hows, fmt.Sprintf("%q", k))
+			return
+		}
+		switch x := v.(type) {
+		case *ssa.Phi:
+			for _, e := range x.Edges {
+				src(e, depth)
+			}
+			return
+		case *ssa.ChangeType:
+			src(x.X, depth)
+			return
+		case *ssa.Call:
+			sc := x.Call.StaticCallee()
+			if sc == nil {
+				break
+			}
+			if sc.String() == "(time.Time).Format" && len(x.Call.Args) == 2 {
+				if l, ok := constString(x.Call.Args[1]); ok {
+					lits = append(lits, l)
+					hows = append(hows, fmt.Sprintf("a time in the layout %q", l))
+					return
+				}
+				break
+			}
+			if c.inModule(sc) && len(sc.Blocks) > 0 && depth > 0 && sc.Signature.Results().Len() == 1 {
+				nret := 0
+				eachInstr(sc, func(ins ssa.Instruction) {
+					if r, ok := ins.(*ssa.Return); ok && len(r.Results) == 1 {
+						nret++
+						src(r.Results[0], depth-1)
+					}
+				})
+				if nret > 0 {
+					return
+				}
+			}
+		}
+		closed = false
+	}
+	stores := 0
+	for _, f := range c.modFuncs {
+		eachInstr(f, func(ins ssa.Instruction) {
+			st, ok := ins.(*ssa.Store)
+			if !ok {
+				return
+			}
+			fa, ok := st.Addr.(*ssa.FieldAddr)
+			if !ok {
+				return
+			}
+			pt, ok := fa.X.Type().Underlying().(*types.Pointer)
+			if !ok {
+				return
+			}
+			str, ok := pt.Elem().Underlying().(*types.Struct)
+			if !ok || fa.Field >= str.NumFields() || str.Field(fa.Field) != fv {
+				return
+			}
+			stores++
+			src(st.Val, 3)
+		})
+	}
+	if stores == 0 {
+		return false, "", ""
+	}
+	sort.Strings(hows)
+	return closed, strings.Join(lits, ""), strings.Join(dedupSorted(hows), " or ")
+}
+
+// writtenStringsReadBack (C10): a string of a font that was read — any byte string: the reader's
+// literal strings can hold every byte — which the template writes as a PostScript string must be
+// read back as itself, or the second reading differs from the first.  Every template function
+// through which a string field is written under a key that the reader accepts as a String is
+// evaluated end to end (from the state after the initialisers of the two packages, whatever
+// helpers, tables or library objects it uses) on the cells of stringWriterCells, and its output
+// is read back by the PLRM's rules for literal strings, to which the reader is held by C04.
+func (c *Ctx) writtenStringsReadBack(tk []tmplKey, rk map[string]*readerKey) {
+	st := c.aInitFrom("type1", c.aInit("postscript"))
+	keysOf := map[string][]string{}
+	var pipes []string
+	nKeys := 0
+	for _, k := range tk {
+		if k.goType != "string" || k.pipe == "" {
+			continue
+		}
+		if r := rk[k.key]; r == nil || !r.types["String"] {
+			continue
+		}
+		if keysOf[k.pipe] == nil {
+			pipes = append(pipes, k.pipe)
+		}
+		keysOf[k.pipe] = append(keysOf[k.pipe], "/"+k.key)
+		nKeys++
+	}
+	for _, pipe := range pipes {
+		construct := fmt.Sprintf("the strings written through %s (%s) are read back as the strings that were written", pipe, strings.Join(keysOf[pipe], " "))
+		f, ok := c.tmplFuncValue(st, pipe)
+		if !ok || f.fn.Signature.Params().Len() != 1 {
+			c.undecided("CL-STRINGS", "type1 font program template", construct, token.NoPos, "the template function "+pipe+" could not be resolved")
+			continue
+		}
+		diffs, cells := stringWriterCells("the template function "+pipe, func(in string) (string, string) {
+			ev := st.newEval()
+			ret := ev.aCallFn(f, []sv{aStrV(in)})
+			if len(ret) < 1 || ret[0].k != svString {
+				if ev.why == "" {
+					ev.why = "no string result"
+				}
+				return "", ev.why
+			}
+			return ret[0].s, ""
+		})
+		c.check(len(diffs) == 0, "CL-STRINGS", "type1 font program template", construct, token.NoPos, fmt.Sprintf("%s evaluated for %d strings (every byte alone, in and next to parentheses, before a digit) and read back by the PLRM's rules", pipe, cells),
+			"a string that was read is not written back as itself: "+joinMax(diffs, 4)+" — the font changes in a read/write/read cycle")
+	}
+	c.check(nKeys >= 4, "CL-STRINGS", "type1 font program template", "string-valued keys written through a string function are accounted for", token.NoPos, fmt.Sprint(nKeys), fmt.Sprintf("only %d keys of the template are written from a string field through a function and read as a String (the FontInfo strings are expected)", nKeys))
+	c.floor("CL-STRINGS", 2)
+}
+
+// tmplFuncClass: what a one-argument template function does with a string that holds a byte
+// which would change the program text if it were written as it is (a line end, a parenthesis, a
+// percent sign, a space).  The function is evaluated on such strings:
+//
+//	"literal"  every one comes back as exactly one complete PostScript literal string
+//	"refuses"  every one is refused (the function panics: the name writer)
+//	"guarded"  each one is refused or comes back as a literal string
+//	"noeol"    some come back as they are, but no result contains a CR, LF or FF
+//	"raw"      a result contains a line end and is not a literal string
+//	"?"        the function could not be evaluated (why says for which input)
+func (c *Ctx) tmplFuncClass(st *aState, name string) (class, why string) {
+	f, ok := c.tmplFuncValue(st, name)
+	if !ok || f.fn.Signature.Params().Len() != 1 {
+		return "?", "the template function " + name + " could not be resolved to a function of one argument"
+	}
+	nLit, nRef, nPlain, n := 0, 0, 0, 0
+	for _, in := range []string{"x\ny", "x\ry", "x\fy", "x)y", "x(y", "x%y", "x y", "\n", "\r\n", ")", "("} {
+		n++
+		ev := st.newEval()
+		ret := ev.aCallFn(f, []sv{aStrV(in)})
+		panics := false
+		for _, ef := range ev.effects {
+			if ef.what == "panic" {
+				panics = true
+			}
+		}
+		switch {
+		case panics:
+			nRef++
+		case len(ret) < 1 || ret[0].k != svString:
+			return "?", fmt.Sprintf("%s could not be evaluated for %q (%s)", name, in, ev.why)
+		default:
+			out := ret[0].s
+			if _, used, ok := plrmString([]byte(out + "Q")); ok && used == len(out) && strings.HasPrefix(out, "(") {
+				nLit++
+			} else if strings.ContainsAny(out, "\r\n\f") {
+				return "raw", fmt.Sprintf("%s writes %q as %q", name, in, out)
+			} else {
+				nPlain++
+			}
+		}
+	}
+	switch {
+	case nLit == n:
+		return "literal", ""
+	case nRef == n:
+		return "refuses", ""
+	case nPlain == 0:
+		return "guarded", ""
+	}
+	return "noeol", ""
+}
+
 // commentSanitiser: a string written on a comment line of the font program (the %! header line,
 // DSC comments) must not be able to end the line: the PLRM ends a comment at CR, LF and FF.
 // Every template function that is applied to a value on a comment line is evaluated for every
@@ -1164,11 +1457,11 @@ func (c *Ctx) commentSanitiser() {
 			return r
 		}
 		r := false
-		if f := c.tmplFuncSSA(name); f != nil && f.Signature.Params().Len() == 1 {
+		if f, ok := c.tmplFuncValue(st, name); ok && f.fn.Signature.Params().Len() == 1 {
 			r = true
 			for _, in := range []string{"x\ry", "x\ny", "x\fy", "\r\n"} {
 				ev := st.newEval()
-				ev.runFunc(f, []sv{aStrV(in)})
+				ev.aCallFn(f, []sv{aStrV(in)})
 				panics := false
 				for _, ef := range ev.effects {
 					if ef.what == "panic" {
@@ -1238,14 +1531,18 @@ func (c *Ctx) commentSanitiser() {
 		if u.fn == "" {
 			{
 				n++
+				if closed, lit, how := c.tmplFieldText(u.field); closed && !strings.ContainsAny(lit, "\r\n\f") {
+					c.ok("CL-ESCAPE", "type1 font program template", "comment line: `"+u.action+"` cannot contain a line end", token.NoPos, "every value the module stores into the field is "+how+": no CR, LF or FF in the constant text", "")
+					continue
+				}
 				c.check(viaPN[u.field], "CL-ESCAPE", "type1 font program template", "comment line: `"+u.action+"` cannot contain a line end", token.NoPos, "also written through a function that refuses line ends (the name writer)", "the string field `"+u.action+"` is written on a comment line as it is: a CR, LF or FF in it ends the comment and the rest is executed (header injection)")
 			}
 			continue
 		}
 		why, done := decided[u.fn]
 		if !done {
-			fn := c.tmplFuncSSA(u.fn)
-			if fn == nil {
+			fn, okF := c.tmplFuncValue(st, u.fn)
+			if !okF {
 				why = "the template function " + u.fn + " could not be resolved"
 			} else {
 				var inputs []string
@@ -1256,7 +1553,7 @@ func (c *Ctx) commentSanitiser() {
 				var bad []string
 				for _, in := range inputs {
 					ev := st.newEval()
-					ret := ev.runFunc(fn, []sv{aStrV(in)})
+					ret := ev.aCallFn(fn, []sv{aStrV(in)})
 					if len(ret) < 1 || ret[0].k != svString {
 						bad = append(bad, fmt.Sprintf("%s could not be evaluated for %q (%s)", u.fn, in, ev.why))
 						break
